@@ -45,6 +45,7 @@ def run(ck):
     ck.build('sys_rec')
     sfiles = sys_common.record(ck, ck.pick(6, 16), ck.pick(6, 12), tag='tmirq', mode='irq', seedoff=4100)
     sfiles += sys_common.record(ck, ck.pick(2, 8), ck.pick(4, 10), tag='tmio', mode='io', seedoff=4300)
+    sfiles += sys_common.record(ck, ck.pick(4, 12), ck.pick(4, 10), tag='tmlong', mode='long', seedoff=4500)   # counters crossing 2^16 / 2^17 in Run
     sys_common.validate(ck, sfiles)
     ck.assumptions += ['Timer.tla is a faithful reading of the C15 statement (reviewed by hand)',
                        'TLC, the Json/IOUtils community modules and g++ are trusted',
@@ -65,7 +66,7 @@ def record(ck):
 
 def replay(ck, path):
     path = path.split('#')[0]
-    if os.path.basename(path).startswith(('tmirq_', 'tmio_')):
+    if os.path.basename(path).startswith(('tmirq_', 'tmio_', 'tmlong_')):
         ck.validate_traces('SysTrace', 'Trace_Sys.cfg', [path], jvm=['-Xss64m'])
     elif path.endswith('.ndjson'):
         ck.validate_traces('TimerTrace', 'Trace_Timer.cfg', [path])
